@@ -814,7 +814,8 @@ def p7(ctx, R):
         cp = cmp_parts(e)
         return bool(cp and cp[1] in ("In", "NotIn") and norm(cp[2]).endswith(R.an("expected")) and ((cp[1] == "In") == pol))
     for st in clears:
-        if all(cfg.guarded(n, in_fact) for n in cfg.nodes_for(st)):
+        # (clearing when nothing is expected changes nothing: None stays None)
+        if all(cfg.guarded(n, in_fact) or cfg.guarded(n, ok_fact) for n in cfg.nodes_for(st)):
             ctx.holds("P7", "expected set cleared only after a matching token")
         else:
             ctx.violation("P7", f, "expected-cleared-early", "the expected set is cleared without the token having matched", node=st)
